@@ -26,6 +26,9 @@
 #include "pwd-snoopy.h"
 
 #include "snoopy.h"
+#ifdef SNOOPY_CONF_THREAD_SAFETY_ENABLED
+#include "tsrm.h"
+#endif
 
 #include <limits.h>
 #include <pwd.h>
@@ -50,6 +53,7 @@
 char * snoopy_util_pwd_convertUidToUsername (uid_t uid)
 {
     struct passwd  pwd;
+    int            nssRetVal;
     struct passwd *pwd_uid = NULL;
     char          *buffpwd_uid = NULL;
     long           buffpwdsize_uid = 0;
@@ -76,7 +80,19 @@ char * snoopy_util_pwd_convertUidToUsername (uid_t uid)
 
 
     /* Try uid->username conversion */
-    if (0 != getpwuid_r(uid, &pwd, buffpwd_uid, buffpwdsize_uid, &pwd_uid)) {
+    /*
+     * The NSS lookup runs under locks of libc (module table, service data) that fork() does not
+     * reset in the child: if another thread forked right now, the child's first lookup would block
+     * forever. Keep fork() out while the lookup runs (see snoopy_tsrm_forkGuard_enter()).
+     */
+#ifdef SNOOPY_CONF_THREAD_SAFETY_ENABLED
+    snoopy_tsrm_forkGuard_enter();
+#endif
+    nssRetVal = getpwuid_r(uid, &pwd, buffpwd_uid, buffpwdsize_uid, &pwd_uid);
+#ifdef SNOOPY_CONF_THREAD_SAFETY_ENABLED
+    snoopy_tsrm_forkGuard_leave();
+#endif
+    if (0 != nssRetVal) {
         free(buffpwd_uid);
         free(username);
         return NULL;
